@@ -154,6 +154,8 @@ let handle (line : string) : string =
        | Inr NSyntax -> "syntaxerror"
        | Inr NLookup -> "keyerror"
        | Inr NValue -> "valueerror")
+  | ["escape"; isb; p] -> enc_str (escape (dec_bool isb) (dec_str p))
+  | ["ismagic"; isb; fl; p] -> enc_bool (is_magic (dec_bool isb) (z_of_int (int_of_string fl)) (dec_str p))
   | _ -> "badrequest"
 
 let () =
